@@ -958,11 +958,11 @@ Proof.
   match goal with |- bind ?m _ <> _ => assert (Hm : m <> Panic); [ | destruct m as [[e0 inp]| | |]; try discriminate; try congruence ] end.
   { destruct (split_at_first _ (c :: l) []) as [[m ex]|]; [|discriminate].
     destruct ex; [discriminate|]. destruct (go_signed_val 10 (n :: ex)); [|discriminate].
-    destruct (in_int32 z); discriminate. }
+    destruct (in_int64 z); discriminate. }
   cbn [bind]. destruct (split_at_first _ inp []) as [[ip fp]|].
-  - destruct (_ <? _)%Z; cbn [bind]; [discriminate|].
+  - destruct (negb (in_int32 _)); [discriminate|].
     match goal with |- context [go_signed_val 10 ?v] => destruct (go_signed_val 10 v) end; discriminate.
-  - cbn [bind].
+  - destruct (negb (in_int32 _)); [discriminate|].
     match goal with |- context [go_signed_val 10 ?v] => destruct (go_signed_val 10 v) end; discriminate.
 Qed.
 Lemma parse_ts_text_np l : parse_ts_text l <> Panic.
